@@ -21,3 +21,4 @@ OBLIG_BY_PROP = {"C05": ["QuillModel.Obligations.BackendB_C05", "QuillModel.Obli
 THEOREMS["C06"] += ["Backend.C06_poll_pops_unless_batch_guard", "Backend.C06_flush_not_overtaken",
                     "Backend.C06_flush_log_returns_concurrent", "Backend.C06_batch_guard_starves"]
 MODULES["C06"] += ["QuillModel.Props.C06Progress"]
+THEOREMS["C06"] += ["Backend.C06_nothing_older_arrives", "Backend.C06_flush_log_returns_concurrent_explicit"]
